@@ -54,6 +54,10 @@ def step (st : St) (toks : List String) : St × String :=
     | none => (st, "bad-op")
   | ["put", "strbytes", pl] =>
     match parsePayload pl with
+    | some s => applyPut st (putStringBytesL st.enc st.buf s)
+    | none => (st, "bad-op")
+  | ["put", "strb", pl] =>
+    match parsePayload pl with
     | some s => applyPut st (putStringBytes st.enc st.buf s)
     | none => (st, "bad-op")
   | ["put", "bytes", pl] =>
@@ -112,6 +116,14 @@ def step (st : St) (toks : List String) : St × String :=
       match d1.getInt32 with
       | .error e => (st, errStr e)
       | .ok (ex, d2) => ({ st with dec := d2 }, s!"ok {(decodeDouble fi ex).toBits.toNat}")
+  | ["get", "flt"] =>
+    -- GetFloat / CodeFloat: the decoded double rounded to float32 (shown as the bits of its float64 value)
+    match st.dec.getInt32 with
+    | .error e => (st, errStr e)
+    | .ok (fi, d1) =>
+      match d1.getInt32 with
+      | .error e => (st, errStr e)
+      | .ok (ex, d2) => ({ st with dec := d2 }, s!"ok {(decodeDouble fi ex).toFloat32.toFloat.toBits.toNat}")
   | ["get", "bytes", n] =>
     match n.toInt? with
     | some n =>
